@@ -12,6 +12,10 @@ Theorem C15_tables_wf :
   arrfmt_ok gen_af = true /\ wf_mtable gen_host = true /\ wf_mtable gen_ret = true.
 Proof. vm_compute. repeat split; reflexivity. Qed.
 
+(* every message class the module defines is the one its type byte dispatches to *)
+Theorem C15_all_classes_registered : gen_unregistered = [].
+Proof. reflexivity. Qed.
+
 (* every message (any field values that the struct can hold; arrays of any
    length with any pattern of undefined entries) comes back as itself *)
 Definition roundtrip (t : list mclass) : Prop :=
